@@ -43,7 +43,9 @@ def budget_alphabet(p, n_test=3, iroas=1.0):
     for T, C in relig.legal_designs(rowd, geos):
         x, y = rpanel.agg(ser, C), rpanel.agg(ser, T)
         c = rstats.corr(x, y)
-        buds.append(rstats.est_impact(y, c, n_test, 0.9, 0.9, 0.8) / iroas)
+        b = rstats.est_impact(y, c, n_test, 0.9, 0.9, 0.8) / iroas if c == c else float('nan')
+        if b == b and b > 0:           # designs on a flat series have no defined budget: not part of the alphabet
+            buds.append(b)
     buds.sort()
 
     def q(f):
@@ -261,6 +263,30 @@ def weak_space(methods=('exhaustive_search',), seeds=(0, 1, 5), k_values=(1, 2, 
                 for rows in rowsets:
                     out.append({'panel': p, 'rows': [list(r) for r in rows], 'nomatrix': False, 'extra': None, 'kw': kw,
                                 'deviations': 1 + (mc_ != 0.8) + (rows is not rowsets[0])})
+    return [c for c in with_methods(out, methods) if precondition_ok(c)]
+
+
+def mincorr_threshold_space(p, methods=('exhaustive_search', 'greedy_search'), base_kw=None, npm=90):
+    """min_corr placed at every two-decimal value ADJACENT to the correlation of some design of the panel (the rounded
+    correlation r and r + 0.01, inside [0.8, 1)): designs whose correlation lies just below / just above the threshold, and
+    whose rounded correlation falls on the other side of it, occur for some value."""
+    base_kw = dict(base_kw or {})
+    _, tab = rpanel.table(panels.rows(p))
+    ser = rpanel.window(tab, npm)
+    geos = sorted(tab)
+    rowd = {g: (1, 1, 1) for g in geos}
+    vals = set()
+    for T, C in relig.legal_designs(rowd, geos):
+        c = rstats.corr(rpanel.agg(ser, C), rpanel.agg(ser, T))
+        if c == c:
+            r = round(float(c), 2)
+            for m in (r, round(r + 0.01, 2), round(r - 0.01, 2)):
+                if 0.8 <= m < 1.0 and abs(c - m) > 1e-9:
+                    vals.add(m)
+    out = []
+    for m in sorted(vals):
+        out.append({'panel': p, 'rows': [[1, 1, 1]] * p['G'], 'nomatrix': False, 'extra': None,
+                    'kw': dict(base_kw, min_corr=m), 'deviations': 1})
     return [c for c in with_methods(out, methods) if precondition_ok(c)]
 
 
